@@ -64,7 +64,14 @@ TreeCases ==
    Tree(<<Card, F("home", "@each(q in [1, 2]){{ x = 1 }}{{ y = 2.5 }}@component(\"~card\", {x: \"s\", y: \"t\", n: loop, q: \"z\", loop: q})@end")>>, "home", "unbindable-arguments"),
    Tree(<<F("a", "A"), F("b", "B"), F("c/d", "D"), F("c/e", "E"), F("f", "@dump(" \o Obj(5, Num) \o ")")>>, "f", "many-files")}
 
-Cases == RenderCases \cup TreeCases
+\* "every time, within one process": the same source rendered after a success, after a failure that had already produced
+\* output, after a failure at its very start - every arrangement of up to four renders over these sources
+Goods == {"x{{ 1 }}y", "{{ " \o Obj(3, Num) \o " }}", "@each(v in [1, 2])<{{ v }}>@end"}
+Fails == {"partial {{ 1 }}{{ zz }}", "@each(v in [1, 2])p{{ v }}{{ 1 / (v - 2) }}@end", "head@if(true)in{{ 1 + \"s\" }}@end", "{{ zz }}never"}
+Srcs == Goods \cup Fails
+SeqCases == {[kind |-> "seq", steps |-> <<a, b, c>>, tags |-> <<"c14", "sequence">>] : a \in Srcs, b \in Fails, c \in Srcs}
+            \cup {[kind |-> "seq", steps |-> <<a, b, a, c, a>>, tags |-> <<"c14", "sequence">>] : a \in Goods, b \in Fails, c \in Fails}
+Cases == RenderCases \cup TreeCases \cup SeqCases
 Init == cas \in Cases /\ rec = FALSE
 Next == ~rec /\ rec' = TRUE /\ UNCHANGED cas
 Spec == Init /\ [][Next]_vars
